@@ -29,6 +29,7 @@ func buildC03World(t testing.TB) *c03World {
 	w.File("d3/\u0436\u0436.iso", 13, 4)
 	w.File("d3/"+strings.Repeat("\xe9", 255), 14, 4)
 	w.MkDir("d3/\xfe\xfe\xfe")
+	w.File("d1/x", 9, 5) // the shortest possible name: a one-byte name field
 	cw := &c03World{w: w}
 	cw.resetW()
 	return cw
@@ -46,7 +47,7 @@ func (cw *c03World) resetW() {
 func c03Alphabet() []Req {
 	big := patBytes(5, 0, 70000)
 	return []Req{
-		mkReq(opOpenDir, "/d2"), mkReq(opOpenDir, "/nope"), mkReq(opOpenDir, "/empty"), mkReq(opOpenDir, "/f.bin"), mkReq(opOpenDir, "/d3"),
+		mkReq(opOpenDir, "/d2"), mkReq(opOpenDir, "/nope"), mkReq(opOpenDir, "/empty"), mkReq(opOpenDir, "/f.bin"), mkReq(opOpenDir, "/d3"), mkReq(opOpenDir, "/d1"),
 		noargReq(opReadDirEntry), noargReq(opReadDirEntryV2), noargReq(opReadDir),
 		mkReq(opStatFile, "/f.bin"), mkReq(opStatFile, "/nope"), mkReq(opStatFile, "/d2"),
 		mkReq(opOpenFile, "/f.bin"), mkReq(opOpenFile, "/nope"), mkReq(opOpenFile, "/d2/b.bin"), mkReq(opOpenFile, "/CLOSEFILE"),
@@ -78,7 +79,7 @@ func TestC03(t *testing.T) {
 	if r.Thorough() {
 		depth = 4
 	}
-	r.Rule("all request sequences of length <= depth over a 38-request alphabet covering the 15 opcodes in success and failure form plus unknown opcodes, x writing enabled/disabled; every truncation point of every request as last request after every 1-request prefix; whole/1-byte/7-byte delivery; the same sequences pipelined in one piece (stream = concatenation of the one-by-one answers); an upload whose storing fails (ENOSPC, EIO, partial write) at every write of a 70000-byte payload with three transfer buffer configurations; a case is distinct by (allow-write, executed request prefix, delivery)")
+	r.Rule("all request sequences of length <= depth over a 39-request alphabet covering the 15 opcodes in success and failure form plus unknown opcodes, x writing enabled/disabled; every truncation point of every request as last request after every 1-request prefix; whole/1-byte/7-byte delivery; the same sequences pipelined in one piece (stream = concatenation of the one-by-one answers); an upload whose storing fails (ENOSPC, EIO, partial write) at every write of a 70000-byte payload with three transfer buffer configurations; a case is distinct by (allow-write, executed request prefix, delivery)")
 	r.Extra("depth", depth)
 	r.Extra("alphabet", len(alpha))
 
